@@ -35,8 +35,9 @@ GoodFrame(r) ==
 \* beyond the statement (reported as drift): the reader is left exactly after the frame; a masked frame's payload is laid out as given
 StrictFrame(r) == r.dused = Len(r.hdr) + r.f.len /\ r.same
 Got(r) == [r |-> r.dr, f |-> IF r.dr = "ok" THEN Fr(r.d, r.dsmall) ELSE W!NoFrame, used |-> r.dused]
-GoodBytes(r) == W!Matches(Got(r), W!Decode(r.w))
-StrictBytes(r) == W!ConsumesExactly(Got(r), W!Decode(r.w)) /\ W!SameErrorKind(Got(r), W!Decode(r.w))
+GoodBytes(r) == W!MatchesWire(Got(r), r.w)
+StrictBytes(r) == /\ W!ConsumesExactly(Got(r), W!Decode(r.w)) /\ W!SameErrorKind(Got(r), W!Decode(r.w))
+                  /\ ~W!RefusedNonMinimal(Got(r), r.w)
 Good(r) == IF r.k = "frame" THEN GoodFrame(r) ELSE IF r.k = "bytes" THEN GoodBytes(r) ELSE FALSE
 Strict(r) == IF r.k = "frame" THEN StrictFrame(r) ELSE StrictBytes(r)
 
